@@ -98,7 +98,7 @@ CHECKS["C17"] = dict(
    design="4/C17")
 CHECKS["C18"] = dict(
    technique="differential testing across cargo feature configurations: a seeded battery of generated documents and API-built structures run through a battery program compiled once per configuration; canonical dumps compared across configurations and with by-construction expectations",
-   text="6 (quick) / 14 (thorough) feature configurations of toml_edit and toml are built from /repo (a configuration that does not build is a violation) and run on 2000 battery items (documents, API-built structures, toml::Table call histories, edit histories on larger reordered documents): dumps of decoded trees, of the span of every key and item, of API-built structures and of printed text must be identical across configurations with the capability (and equal to the harness' own expectation for by-construction items), toml's key order must be insertion order exactly under preserve_order and sorted without, over-limit nesting must flip from reject to accept under unbounded only.",
+   text="6 (quick) / 14 (thorough) feature configurations of toml_edit and toml are built from /repo (a configuration that does not build is a violation) and run on 2000 (quick) / 8000 (thorough) battery items (documents, API-built structures, toml::Table call histories, edit histories on larger reordered documents): dumps of decoded trees, of the span of every key and item, of API-built structures and of printed text must be identical across configurations with the capability (and equal to the harness' own expectation for by-construction items), toml's key order must be insertion order exactly under preserve_order and sorted without, over-limit nesting must flip from reject to accept under unbounded only.",
    note="the battery program shares no code with the harness; each configuration has its own target directory under harness/target-c18",
    design="4/C18")
 CHECKS["C19"] = dict(
